@@ -287,7 +287,8 @@ def gen_cases(tier: str, seed: int) -> List[Dict]:
             for opt in ({"retain_names": False}, {"retain_coefficients": True}):
                 add("pickle", P(shape, names=("q0", "q1"), mode="raw"), options=opt)
     # text: every shape incl. 0-d / size-1 / n-d, single-term polynomials, settings, file objects
-    settings = [{}, {"delimiter": ","}, {"header": "my header"}, {"comments": "% "}, {"delimiter": ";", "comments": "// "}]
+    settings = [{}, {"delimiter": ","}, {"header": "my header"}, {"comments": "% "}, {"delimiter": ";", "comments": "// "},
+                {"comments": "$ "}, {"comments": "| "}, {"comments": "* "}, {"comments": "^"}, {"comments": "(? "}, {"comments": ". "}, {"comments": "[#] "}]
     for shape in shapes:
         for nt in (1, 2, 3):
             if quick and nt == 3 and rng.random() < 0.5:
